@@ -110,7 +110,11 @@ def regen_tables():
         if rc != 0:
             return False, "dump-tables failed: " + (out + err)[-2000:]
         changed = replace_if_changed(tmp, os.path.join(COQ, "gen", "Tables_gen.v"))
-        return True, "changed" if changed else "unchanged"
+    if changed:
+        # everything compiled against the old dump is stale: full rebuild (a failing proof shows up
+        # again, with its theorem name, when the property's own obligations are re-checked)
+        coq_make(keep_going=True)
+    return True, "changed" if changed else "unchanged"
 
 
 def regen_consts():
@@ -136,11 +140,11 @@ def coq_makefile():
         run(["coq_makefile", "-f", "_CoqProject", "-o", "Makefile"], cwd=COQ, check=True)
 
 
-def coq_make(targets=None, timeout=3000):
+def coq_make(targets=None, timeout=3000, keep_going=False):
     """Full .vo build of the given targets (default: everything). Returns (ok, output)."""
     with Lock("coq"):
         coq_makefile()
-        cmd = ["make", "-j16"] + (targets or [])
+        cmd = ["make", "-j16"] + (["-k"] if keep_going else []) + (targets or [])
         rc, out, err = run(cmd, cwd=COQ, timeout=timeout)
         return rc == 0, out + err
 
